@@ -17,6 +17,11 @@ MIN_COUNTERS = {"fits": 100, "orthogonality_checks": 100, "in_space": 20, "with_
 ASSUMPTIONS = ["float class: judged to 1e-8 relative (1e-6 with interpolation nodes) on well-conditioned pairs"]
 
 
+# LeastSquare.func2func turns Python int knots into Fractions element by element: knot vectors written with ints for the
+# integral values (alone or mixed with Fractions) are an exact class of this operation
+MIXED_INTS = True
+
+
 def gen_case(rng, idx, tier):
     nt = rng.choice(["frac", "frac", "frac", "float"])
     src = gen.curve(rng, pmax=3, nintmax=2, rational=False, dim=rng.choice([0, 0, 2]))
